@@ -167,8 +167,10 @@ def make_case(rng, maxdepth, fan):
         # observers on b2 so that the anonymous bundle's sources are terminals of the partition
         for k, (path, w) in enumerate(leaves):
             top["insts"].append({"name": f"z{k}", "kind": "single", "of": ["leaf", refsem.wleaf(w)], "tag": 90 + k, "conns": {"p": ["bref", "b2", list(path)]}})
+    for mspec in (ch, top):
+        mspec["vis_via"] = rng.choice(["ctor-bool", "ctor-bool", "ctor-vis", "attr-bool", "attr-vis"])
     design["modules"] = [ch, top]
-    meta = {"root": root, "flip": flip, "role": role, "via": via, "form": form}
+    meta = {"root": root, "flip": flip, "role": role, "via": via, "form": form, "vis_via": [ch["vis_via"], top["vis_via"]]}
     return design, meta
 
 
